@@ -105,4 +105,26 @@ RunFrom(st, p, in, maxh) ==
        IF g.status # "run" THEN [status |-> g.status, pos |-> p + s.req, maxh |-> maxh]
        ELSE RunFrom(g.st, p + s.req, in, IF Len(g.st) > maxh THEN Len(g.st) ELSE maxh)
 Run(in, t) == RunFrom(<<Val(t, DefaultDepth)>>, 0, in, 1)
+
+\* the sequence of request sizes of a successful run starting at stream offset p0 (0-based)
+RECURSIVE ReqsFrom(_, _, _)
+ReqsFrom(st, p, in) ==
+  LET s == Settle(st) IN
+  IF s.status # "run" \/ s.req > in.len - p THEN <<>>
+  ELSE LET g == Granted(s.st, in, p + 1) IN
+       IF g.status # "run" THEN <<s.req>> ELSE <<s.req>> \o ReqsFrom(g.st, p + s.req, in)
+Reqs(in, t, p0) == ReqsFrom(<<Val(t, DefaultDepth)>>, p0, in)
+
+\* ---- ReaderSkipDecoder's private buffer (implementation level) -------------------------------------------
+\* The decoder appends every granted request to one buffer that persists across values and is grown
+\* to exactly (bytes of the current value so far + request), with the pool's power-of-two capacity.
+RECURSIVE SMP2(_, _)
+SMP2(x, p) == IF p >= x THEN p ELSE SMP2(x, 2 * p)
+RECURSIVE BufAfter(_, _, _, _)
+\* fold the requests of one value: [blen, bcap] after it; pn = bytes of the value read so far
+BufAfter(reqs, pn, blen, bcap) ==
+  IF reqs = <<>> THEN [blen |-> blen, bcap |-> bcap, n |-> pn]
+  ELSE LET r == Head(reqs) IN
+       IF blen - pn >= r THEN BufAfter(Tail(reqs), pn + r, blen, bcap)
+       ELSE BufAfter(Tail(reqs), pn + r, pn + r, SMP2(pn + r, 1))
 =============================================================================
